@@ -16,6 +16,11 @@ fn main() {
         Some("comment") => std::process::exit(comment_case(&args[2], &args[3])),
         Some("markdown") => std::process::exit(markdown_case(&args[2], &args[3], &args[4])),
         Some("rule-doc") => std::process::exit(rule_doc_case(&args[2], args.get(3).map(|s| s.as_str()).unwrap_or(""))),
+        Some("comment-fence") => std::process::exit(comment_fence_case(&args[2])),
+        Some("doc-locality") => std::process::exit(doc_locality_case(&args[2], args[3].parse().unwrap())),
+        Some("ignore") => std::process::exit(ignore_case(&args[2], &args[3])),
+        Some("title") => std::process::exit(title_case(&args[2])),
+        Some("spell") => std::process::exit(spell_case(&args[2..])),
         Some("dict") => std::process::exit(dict_case(&args[2..])),
         Some("spell-cache") => std::process::exit(spell_cache_case(&args[2], &args[3])),
         Some("remove-overlaps-raw") => {
@@ -78,6 +83,25 @@ fn tiling_case(text: &str) -> i32 {
     if cursor != len {
         println!("VIOLATED: the tokens end at {cursor} but the text has {len} chars (characters lost)");
         bad = 1;
+    }
+    // every plain integer directly followed by exactly an ordinal suffix is ONE number token carrying that suffix
+    let mut i = 0;
+    while i < len {
+        if chars[i].is_ascii_digit() && (i == 0 || !(chars[i - 1].is_alphanumeric() || chars[i - 1] == '.' || chars[i - 1] == ',')) {
+            let mut j = i;
+            while j < len && chars[j].is_ascii_digit() { j += 1; }
+            if j + 2 <= len && (j + 2 == len || !(chars[j + 2].is_alphanumeric() || chars[j + 2] == '\'' || chars[j + 2] == '.' || chars[j + 2] == '@')) && j - i <= 15 {
+                let sfx: String = chars[j..j + 2].iter().map(|c| c.to_ascii_lowercase()).collect();
+                if ["st", "nd", "rd", "th"].contains(&sfx.as_str()) {
+                    let ok = doc.get_tokens().iter().any(|t| t.span.start == i && t.span.end == j + 2 && matches!(&t.kind, TokenKind::Number(n) if n.suffix.map(|s| s.to_chars().iter().collect::<String>()) == Some(sfx.clone())));
+                    if !ok {
+                        println!("VIOLATED: {:?} at {i}..{} is a number with the ordinal suffix {sfx:?} but is not one number token carrying that suffix", chars[i..j + 2].iter().collect::<String>(), j + 2);
+                        bad = 1;
+                    }
+                }
+            }
+            i = j;
+        } else { i += 1; }
     }
     println!("text {:?} -> {} tokens: {:?}", text, doc.get_tokens().len(), doc.get_tokens().iter().map(|t| (t.span.start, t.span.end)).collect::<Vec<_>>());
     bad
@@ -522,6 +546,25 @@ fn markdown_case(kind: &str, x: &str, ignore_link_title: &str) -> i32 {
     let extra: usize = x.chars().map(|c| c.len_utf8() - 1).sum();
     let reps = if extra == 0 { 1 } else { 8 / extra + 1 };
     let body: String = x.repeat(reps);
+    if kind == "entity" {
+        // an HTML entity whose decoded text has another length than its source, followed by prose: the prose must be
+        // found at its true position
+        let mut bad = 0;
+        for name in ["copy", "mdash", "#x1F600", "amp", "eacute"] {
+            let text = format!("&{name}; zq");
+            let mut opts = MarkdownOptions::default();
+            opts.ignore_link_title = ignore_link_title == "true";
+            let toks = Markdown::new(opts).parse_str(&text);
+            let want = text.chars().count() - 2;
+            let cs: Vec<char> = text.chars().collect();
+            let words: Vec<_> = toks.iter().filter(|t| matches!(t.kind, harper_core::TokenKind::Word(_))).map(|t| (t.span.start, t.span.end)).collect();
+            if !words.contains(&(want, want + 2)) || words.iter().any(|(a, b)| *b > cs.len() || cs[*a..*b].iter().any(|c| !c.is_alphabetic())) {
+                println!("VIOLATED: in {text:?} the word \"zq\" lies at {want}..{}, the word tokens are at {words:?}", want + 2);
+                bad = 1;
+            }
+        }
+        return bad;
+    }
     let text = match kind {
         "text" => format!("a {body}"),
         "code" => format!("a `{body}`"),
@@ -640,7 +683,9 @@ fn dict_case(args: &[String]) -> i32 {
     let q: Vec<char> = args[0].chars().collect();
     let d: u8 = args[1].parse().unwrap();
     let r: usize = args[2].parse().unwrap();
-    let words: Vec<Vec<char>> = args[3..].iter().map(|w| w.chars().collect()).collect();
+    // a word argument `p+t` is one child dictionary of the merged dictionary holding several words
+    let groups: Vec<Vec<Vec<char>>> = args[3..].iter().map(|g| g.split('+').map(|w| w.chars().collect()).collect()).collect();
+    let words: Vec<Vec<char>> = groups.iter().flatten().cloned().collect();
     let lower = |w: &[char]| -> Vec<char> { w.iter().flat_map(|c| c.to_lowercase()).collect() };
     fn lev(a: &[char], b: &[char]) -> u8 {
         if a.is_empty() { return b.len() as u8; }
@@ -651,10 +696,14 @@ fn dict_case(args: &[String]) -> i32 {
     let meta = |k: usize| { let mut m = WordMetadata::default(); m.common = k % 2 == 0; m };
     let mut all = MutableDictionary::new();
     let mut merged = MergedDictionary::new();
-    for (k, w) in words.iter().enumerate() {
-        all.append_word(w.clone(), meta(k));
+    let mut k = 0;
+    for g in &groups {
         let mut one = MutableDictionary::new();
-        one.append_word(w.clone(), meta(k));
+        for w in g {
+            all.append_word(w.clone(), meta(k));
+            one.append_word(w.clone(), meta(k));
+            k += 1;
+        }
         merged.add_dictionary(Arc::new(one));
     }
     let fst = FstDictionary::new(words.iter().enumerate().map(|(k, w)| (w.iter().copied().collect(), meta(k))).collect());
@@ -713,5 +762,237 @@ fn dict_case(args: &[String]) -> i32 {
         }
     }
     if bad == 0 { println!("ok: dictionaries agree with the definitions for query {qs:?}, words {:?}", &args[3..]); }
+    bad
+}
+
+
+/// C06: SpellCheck over a MutableDictionary holding one word (with the given dialect, "None" for none) on a plain-English text.
+/// args: <dictionary word> <word dialect|None> <active dialect> <text>
+fn spell_case(args: &[String]) -> i32 {
+    use harper_core::linting::{Linter, SpellCheck, Suggestion, LintKind};
+    use harper_core::{Dialect, Dictionary, Document, MutableDictionary, TokenKind, WordMetadata};
+    use harper_core::parsers::PlainEnglish;
+    let dia = |s: &str| match s { "American" => Some(Dialect::American), "British" => Some(Dialect::British),
+                                  "Australian" => Some(Dialect::Australian), "Canadian" => Some(Dialect::Canadian), _ => None };
+    let w: Vec<char> = args[0].chars().collect();
+    let wd = dia(&args[1]);
+    let active = dia(&args[2]).unwrap_or(Dialect::American);
+    let text = &args[3];
+    let mut md = WordMetadata::default();
+    md.dialect = wd;
+    let mut dict = MutableDictionary::new();
+    dict.append_word(w.clone(), md);
+    let doc = Document::new(text, &PlainEnglish, &dict);
+    let lints = SpellCheck::new(dict.clone(), active).lint(&doc);
+    let src: Vec<char> = text.chars().collect();
+    let lower = |x: &[char]| -> Vec<char> { x.iter().flat_map(|c| c.to_lowercase()).collect() };
+    let upper = |x: &[char]| -> Vec<char> { x.iter().flat_map(|c| c.to_uppercase()).collect() };
+    let mut bad = 0;
+    let mut cap = w.clone();
+    if let Some(f) = cap.first_mut() { *f = f.to_uppercase().next().unwrap(); }
+    for t in doc.get_tokens() {
+        if let TokenKind::Word(_) = t.kind {
+            let cs = &src[t.span.start..t.span.end];
+            let reported = lints.iter().filter(|l| l.span == t.span).count();
+            let contained = lower(cs) == lower(&w);
+            let w_is_lower = w.iter().all(|c| c.is_lowercase());
+            let listed = cs == w.as_slice() || (w_is_lower && (cs == cap.as_slice() || cs == upper(&w).as_slice()));
+            let dialect_ok = wd.is_none() || wd == Some(active);
+            if !contained && cs.iter().all(|c| c.is_ascii_alphabetic()) && reported != 1 {
+                println!("VIOLATED: the word {:?} is not in the dictionary {{{:?}}} but is reported {reported} times", cs.iter().collect::<String>(), args[0]); bad = 1;
+            }
+            if listed && dialect_ok && reported != 0 {
+                println!("VIOLATED: the word {:?} is listed by the dictionary {{{:?}}} (dialect {:?}, active {:?}) but reported as misspelt", cs.iter().collect::<String>(), args[0], wd, active); bad = 1;
+            }
+        }
+    }
+    for l in &lints {
+        if !doc.get_tokens().iter().any(|t| matches!(t.kind, TokenKind::Word(_)) && t.span == l.span) {
+            println!("VIOLATED: spelling lint {:?} does not cover exactly one word of {text:?}", l.span); bad = 1;
+        }
+        if l.lint_kind != LintKind::Spelling { println!("VIOLATED: lint kind {:?}", l.lint_kind); bad = 1; }
+        if l.suggestions.len() > 3 { println!("VIOLATED: {} suggestions", l.suggestions.len()); bad = 1; }
+        for s in &l.suggestions {
+            match s {
+                Suggestion::ReplaceWith(v) => {
+                    if v.as_slice() != w.as_slice() && v.as_slice() != cap.as_slice() { println!("VIOLATED: suggestion {:?} is not a dictionary word", v.iter().collect::<String>()); bad = 1; }
+                    if wd.is_some() && wd != Some(active) { println!("VIOLATED: suggestion {:?} belongs to dialect {:?}, active is {:?}", v.iter().collect::<String>(), wd, active); bad = 1; }
+                }
+                other => { println!("VIOLATED: suggestion {other:?}"); bad = 1; }
+            }
+        }
+    }
+    let _ = dict.word_count();
+    if bad == 0 { println!("ok: spell check of {text:?} against {{{:?}}} agrees with the dictionary", args[0]); }
+    bad
+}
+
+
+/// C04: a Rust file whose `//` comment lines are the lines of `text`; no word of a line that lies inside a ``` code fence (a
+/// fence line = a comment line starting with three backticks) may be offered as prose, words of lines outside must be.
+fn comment_fence_case(text: &str) -> i32 {
+    use harper_core::{Document, TokenKind};
+    let file: String = text.split('\n').map(|l| format!("// {l}\n")).collect();
+    let parser = harper_comments::CommentParser::new_from_language_id("rust", Default::default()).unwrap();
+    let doc = Document::new_curated(&file, &parser);
+    let src: Vec<char> = file.chars().collect();
+    let mut bad = 0;
+    let mut inside = false;
+    let mut pos = 0;
+    for l in text.split('\n') {
+        let line_len = l.chars().count() + 4;
+        let is_fence = l.trim_start().starts_with("```");
+        let words: Vec<String> = doc.get_tokens().iter()
+            .filter(|t| matches!(t.kind, TokenKind::Word(_)) && t.span.start >= pos && t.span.start < pos + line_len)
+            .map(|t| src[t.span.start..t.span.end].iter().collect()).collect();
+        if !is_fence {
+            if inside && !words.is_empty() { println!("VIOLATED: {words:?} on the line {l:?} lie inside a code fence but are offered as prose (file {file:?})"); bad = 1; }
+            if !inside && words.is_empty() && l.chars().all(|c| c.is_ascii_alphabetic()) && !l.is_empty() { println!("VIOLATED: the prose line {l:?} outside every code fence is not offered (file {file:?})"); bad = 1; }
+        }
+        if is_fence { inside = !inside; }
+        pos += line_len;
+    }
+    if bad == 0 { println!("ok: code fences respected in {file:?}"); }
+    bad
+}
+
+
+/// C12: the parsed document of `text` equals the parsed document of its first `split` characters (a paragraph with its
+/// break) followed by the parsed document of the rest, shifted - with an empty and with the curated dictionary.
+fn doc_locality_case(text: &str, split: usize) -> i32 {
+    use harper_core::{Document, FstDictionary, MutableDictionary, TokenKind};
+    use harper_core::parsers::PlainEnglish;
+    let cs: Vec<char> = text.chars().collect();
+    let p: String = cs[..split].iter().collect();
+    let d: String = cs[split..].iter().collect();
+    let mut bad = 0;
+    let empty = MutableDictionary::new();
+    let curated = FstDictionary::curated();
+    for which in 0..2 {
+        let mk = |t: &str| if which == 0 { Document::new(t, &PlainEnglish, &empty) } else { Document::new(t, &PlainEnglish, &curated) };
+        let key = |doc: &Document, shift: usize| doc.get_tokens().iter().map(|t| {
+            let k = match &t.kind { TokenKind::Word(m) => format!("Word({})", m.is_some()), other => format!("{other:?}") };
+            (t.span.start + shift, t.span.end + shift, k) }).collect::<Vec<_>>();
+        let whole = key(&mk(text), 0);
+        let mut parts = key(&mk(&p), 0);
+        parts.extend(key(&mk(&d), split));
+        if whole != parts {
+            println!("VIOLATED: {text:?} parses to {whole:?}, but its paragraph {p:?} and the rest {d:?} parse to {parts:?} (dictionary: {})", if which == 0 { "empty" } else { "curated" });
+            bad = 1;
+        }
+    }
+    if bad == 0 { println!("ok: {text:?} parses like its paragraphs"); }
+    bad
+}
+
+
+/// C14: IgnoredLints through its public API on plain-English documents. `mode` is same / edit / shift, `spec` the JSON
+/// counterexample of the kernel ({documents, ignored_token, other_token | edited_token, ignored: {..}, other: {..}}).
+fn ignore_case(mode: &str, spec: &str) -> i32 {
+    use harper_core::linting::{Lint, LintKind, Suggestion};
+    use harper_core::{Document, IgnoredLints, Token};
+    let v: serde_json::Value = serde_json::from_str(spec).expect("JSON spec");
+    let docs: Vec<String> = v["documents"].as_array().unwrap().iter().map(|d| d.as_str().unwrap().to_string()).collect();
+    let kind = |s: &str| match s { "Spelling" => LintKind::Spelling, "Capitalization" => LintKind::Capitalization, "Style" => LintKind::Style,
+                                   "Formatting" => LintKind::Formatting, "Repetition" => LintKind::Repetition, _ => LintKind::Miscellaneous };
+    let fields = |o: &serde_json::Value| -> (LintKind, String, u8, char) {
+        if o.is_null() { return (LintKind::Spelling, "m".to_string(), 31, 'x'); }
+        (kind(o["kind"].as_str().unwrap_or("")), o["message"].as_str().unwrap_or("m").to_string(), o["priority"].as_u64().unwrap_or(0) as u8,
+         o["suggestion"].as_str().unwrap_or("x").chars().next().unwrap_or('x'))
+    };
+    let mk = |t: &Token, f: &(LintKind, String, u8, char)| Lint { span: t.span, lint_kind: f.0, suggestions: vec![Suggestion::ReplaceWith(vec![f.3])], message: f.1.clone(), priority: f.2 };
+    let d1 = Document::new_plain_english_curated(&docs[0]);
+    let i = v["ignored_token"].as_u64().unwrap() as usize;
+    let fa = fields(&v["ignored"]);
+    let Some(ti) = d1.get_tokens().get(i) else { println!("token {i} does not exist in {:?}", docs[0]); return 0; };
+    let a = mk(ti, &fa);
+    let mut ign = IgnoredLints::new();
+    ign.ignore_lint(&a, &d1);
+    // reference: (text, kind) of the tokens in the windows [s-2, s), [s, e), [s+2, s+4)
+    let window = |doc: &Document, t: &Token| -> Vec<(String, String)> {
+        let src: Vec<char> = doc.get_full_string().chars().collect();
+        let (s, e) = (t.span.start as i64, t.span.end as i64);
+        let mut out = vec![];
+        let mut wins = vec![];
+        if s >= 2 { wins.push((s - 2, s)); }
+        wins.push((s, e));
+        wins.push((s + 2, s + 4));
+        for (a, b) in wins {
+            for x in doc.get_tokens() {
+                if (x.span.start as i64).max(a) < (x.span.end as i64).min(b) {
+                    out.push((src[x.span.start..x.span.end].iter().collect(), format!("{:?}", std::mem::discriminant(&x.kind))));
+                }
+            }
+        }
+        out
+    };
+    match mode {
+        "same" => {
+            let j = v["other_token"].as_u64().unwrap() as usize;
+            let fb = fields(&v["other"]);
+            let Some(tj) = d1.get_tokens().get(j) else { return 0; };
+            let b = mk(tj, &fb);
+            let same = fa == fb && window(&d1, ti) == window(&d1, tj);
+            let mut l = vec![b];
+            ign.remove_ignored(&mut l, &d1);
+            let hidden = l.is_empty();
+            if hidden && !same { println!("VIOLATED: in {:?} the lint {:?} on token {j} is hidden after ignoring the different lint {:?} on token {i}", docs[0], fb, fa); return 1; }
+            if !hidden && same { println!("VIOLATED: in {:?} the lint on token {j} equals the ignored lint on token {i} (fields and surrounding tokens) but is still reported", docs[0]); return 1; }
+        }
+        _ => {
+            let d2 = Document::new_plain_english_curated(&docs[1]);
+            let i2 = if mode == "shift" { i + 2 } else { i };
+            let Some(t2) = d2.get_tokens().get(i2) else { return 0; };
+            if window(&d1, ti) != window(&d2, t2) { println!("the windows differ: not a counterexample"); return 0; }
+            let mut l = vec![mk(t2, &fa)];
+            ign.remove_ignored(&mut l, &d2);
+            if !l.is_empty() { println!("VIOLATED: the lint ignored on token {i} of {:?} is reported again in {:?} although the tokens within two characters of it are the same", docs[0], docs[1]); return 1; }
+        }
+    }
+    println!("ok: ignore list behaves on {:?}", docs);
+    0
+}
+
+
+/// C18: make_title_case_str on `text` with the curated dictionary and with every small custom dictionary that knows one word of
+/// the text (stored lower-case / Capitalised / UPPER / as written; proper noun, determiner, preposition flags in all
+/// combinations): same length, only letter case changes, first word capitalised, idempotent.
+fn title_case(text: &str) -> i32 {
+    use harper_core::parsers::PlainEnglish;
+    use harper_core::{make_title_case_str, Dictionary, FstDictionary, MutableDictionary, NounData, WordMetadata};
+    fn check(text: &str, dict: &impl Dictionary, what: &str) -> i32 {
+        let t1 = make_title_case_str(text, &PlainEnglish, dict);
+        let a: Vec<char> = text.chars().collect();
+        let b: Vec<char> = t1.chars().collect();
+        let fold = |c: char| match c { '\u{2019}' | '\u{2018}' | '\u{FF07}' => '\'', c => c.to_lowercase().next().unwrap() };
+        if a.len() != b.len() || a.iter().zip(&b).any(|(x, y)| fold(*x) != fold(*y)) {
+            println!("VIOLATED: title case of {text:?} is {t1:?} - more than letter case changed ({what})"); return 1;
+        }
+        if let Some(i) = a.iter().position(|c| c.is_alphanumeric()) {
+            if a[i].is_ascii_alphabetic() && !b[i].is_ascii_uppercase() { println!("VIOLATED: title case of {text:?} is {t1:?} - the first word is not capitalised ({what})"); return 1; }
+        }
+        let t2 = make_title_case_str(&t1, &PlainEnglish, dict);
+        if t2 != t1 { println!("VIOLATED: title case of {text:?} is {t1:?}, applying it again gives {t2:?} ({what})"); return 1; }
+        0
+    }
+    let mut bad = check(text, &FstDictionary::curated(), "curated dictionary");
+    let words: Vec<String> = text.split(|c: char| !c.is_alphabetic()).filter(|w| !w.is_empty()).map(|w| w.to_string()).collect();
+    for w in &words {
+        let mut cap: Vec<char> = w.to_lowercase().chars().collect();
+        cap[0] = cap[0].to_ascii_uppercase();
+        for stored in [w.clone(), w.to_lowercase(), w.to_uppercase(), cap.iter().collect::<String>()] {
+            for flags in 0..8 {
+                let mut md = WordMetadata::default();
+                if flags & 1 != 0 { md.noun = Some(NounData { is_proper: Some(true), ..Default::default() }); }
+                md.determiner = flags & 2 != 0;
+                md.preposition = flags & 4 != 0;
+                let mut d = MutableDictionary::new();
+                d.append_word_str(&stored, md);
+                bad |= check(text, &d, &format!("dictionary {{{stored:?}}} flags {flags}"));
+                if bad != 0 { return bad; }
+            }
+        }
+    }
+    if bad == 0 { println!("ok: title case of {text:?}"); }
     bad
 }
